@@ -332,6 +332,24 @@ def op_topology_missing_column(doc, info, rng):
     return out
 
 
+def op_topology_extra_column(doc, info, rng):
+    """One row longer than the number of subnets (the matrix is not square)."""
+    out = []
+    for i in range(len(doc["topology"])):
+        for extra in (0, 1, 7):
+            d = _cp(doc)
+            d["topology"][i] = list(d["topology"][i]) + [extra]
+            out.append((f"row{i}+{extra}", d))
+    return out
+
+
+def op_topology_extra_row(doc, info, rng):
+    d = _cp(doc)
+    n = len(d["topology"])
+    d["topology"] = [list(r) for r in d["topology"]] + [[0] * n]
+    return [("appended", d)]
+
+
 def _topo_entry(doc, value):
     out = []
     n = len(doc["topology"])
@@ -756,6 +774,8 @@ def catalogue():
         "subnets_non_int": op_subnets_nonint,
         "topology_missing_row": op_topology_missing_row,
         "topology_missing_column": op_topology_missing_column,
+        "topology_extra_column": op_topology_extra_column,
+        "topology_extra_row": op_topology_extra_row,
         "topology_entry_two": op_topology_entry_two,
         "topology_entry_negative": op_topology_entry_negative,
         "os_empty": _list_empty("os"), "os_duplicated": _list_dup("os"),
